@@ -21,7 +21,17 @@ for v in vs:
     g[key]['ctx'].add(f[ctxkey]); g[key]['sym'].add(v['symptom']); g[key]['k']=ctxkey; g[key]['case'].add(v['cell'].split('#')[1] if '#' in v['cell'] else '')
 p='/verif/known_findings.json'
 d=json.load(open(p))
+old={x['id']:x for x in d['findings'] if x['id'].startswith(pid+'-ctx-')}
 d['findings']=[x for x in d['findings'] if not x['id'].startswith(pid+'-ctx-')]
+# merge with what earlier runs (other tier) recorded
+for fid,x in old.items():
+    w=x['where']; k=(w['ann'][0], (w.get('build') or [''])[0], (w.get('only') or [''])[0])
+    ck='msg' if 'msg' in w else 'rpc'
+    e=g[k]; e['k']=e.get('k',ck)
+    e['ctx'].update(w.get(ck,[])); e['case'].update(w.get('case',[]))
+    m=re.match(r'^re:\^\((.*)\)\$$',x['symptom'])
+    if m:
+        for sym in m.group(1).split('|'): e['sym'].add(re.sub(r'\\(.)',r'\1',sym))
 for (ann,build,only),e in sorted(g.items()):
     where={'family':['ctx'],'ann':[ann],e['k']:sorted(e['ctx'])}
     if build: where['build']=[build]
